@@ -1,8 +1,10 @@
 /* libFuzzer target for C04 / C11: bytes are decoded into an op list (push / pop / push_at / pop_at / set / rem / concat /
- * resize / sort / assign across kinds / copy / reserve) over an Array<Int> and a List<Int> driven in lock step; the
- * oracle is a plain C array.  After every op: len, get with positive and negative indices, mem, forward iteration
- * (exactly len items, i-th == get(i)), backward iteration (exact reverse), and a generated Slice view (start, stop,
- * step, optionally reversed) compared with the positions its definition selects.  Traps on a violation. */
+ * resize / sort and sort_by / assign across kinds / copy / reserve / push_at with i == len or on an empty container) over
+ * an Array<Int>, a List<Int> and a heap Tuple of distinct heap Ints driven in lock step; the oracle is a plain C array.
+ * After every op: len, get with positive and negative indices, mem, forward iteration (exactly len items, i-th ==
+ * get(i)), backward iteration (exact reverse), a generated Slice view (start, stop, step, optionally reversed) compared
+ * with the positions its definition selects, and on request Zip(array, list), Filter and Map views compared with their
+ * definitions.  Traps on a violation. */
 #include "Cello.h"
 #include <inttypes.h>
 #include <unistd.h>
@@ -79,71 +81,148 @@ static void check_slice(var c) {
   del_raw(s);
 }
 
+/* ---- the Tuple twin: pointers to heap Ints owned by this table (a Tuple never owns its elements) ---- */
+#define MAXI 6000
+static var ints[MAXI]; static size_t nints; static bool tup_on;
+static var mkint(int64_t v) {
+  if (nints >= MAXI) { tup_on = false; return NULL; }
+  var x = new_raw(Int, $I(v)); ints[nints++] = x; return x;
+}
+#define TUP(stmt) do { if (tup_on) { stmt; } } while (0)
+
+static var fz_even(var x) { return c_int(x) % 2 is 0 ? x : NULL; }
+static var dblres = NULL;
+static var fz_dbl(var x) { ((struct Int*)dblres)->val = c_int(x) * 2; return dblres; }
+
+static void check_views(var a, var l) {
+  var z = new_raw(Zip, a, l);
+  if (len(z) isnt mn) { fail("Zip len", (int64_t)len(z), (int64_t)mn); }
+  size_t k = 0;
+  for (var it = iter_init(z); it isnt Terminal; it = iter_next(z, it)) {
+    if (k >= mn) { fail("Zip yields more than len items", (int64_t)k, (int64_t)mn); }
+    if (c_int(get(it, $I(0))) isnt m[k] or c_int(get(it, $I(1))) isnt m[k]) { fail("Zip item", (int64_t)k, m[k]); }
+    k++;
+  }
+  if (k isnt mn) { fail("Zip count", (int64_t)k, (int64_t)mn); }
+  k = mn;
+  for (var it = iter_last(z); it isnt Terminal; it = iter_prev(z, it)) {
+    if (k is 0) { fail("Zip backward yields more than len items", 0, (int64_t)mn); }
+    k--;
+    if (c_int(get(it, $I(0))) isnt m[k] or c_int(get(it, $I(1))) isnt m[k]) { fail("Zip backward item", (int64_t)k, m[k]); }
+  }
+  if (k isnt 0) { fail("Zip backward count", (int64_t)k, (int64_t)mn); }
+  del_raw(z);
+  var f = new_raw(Filter, l, $(Function, fz_even));
+  k = 0;
+  for (var it = iter_init(f); it isnt Terminal; it = iter_next(f, it)) {
+    while (k < mn and m[k] % 2 isnt 0) { k++; }
+    if (k >= mn) { fail("Filter yields an item that was not accepted", c_int(it), (int64_t)mn); }
+    if (c_int(it) isnt m[k]) { fail("Filter item", (int64_t)k, m[k]); }
+    k++;
+  }
+  while (k < mn and m[k] % 2 isnt 0) { k++; }
+  if (k isnt mn) { fail("Filter misses an accepted item", (int64_t)k, m[k]); }
+  k = mn;
+  for (var it = iter_last(f); it isnt Terminal; it = iter_prev(f, it)) {
+    while (k > 0 and m[k-1] % 2 isnt 0) { k--; }
+    if (k is 0) { fail("Filter backward yields an item that was not accepted", c_int(it), (int64_t)mn); }
+    k--;
+    if (c_int(it) isnt m[k]) { fail("Filter backward item", (int64_t)k, m[k]); }
+  }
+  while (k > 0 and m[k-1] % 2 isnt 0) { k--; }
+  if (k isnt 0) { fail("Filter backward misses an accepted item", (int64_t)k, 0); }
+  del_raw(f);
+  var mp = new_raw(Map, a, $(Function, fz_dbl));
+  if (len(mp) isnt mn) { fail("Map len", (int64_t)len(mp), (int64_t)mn); }
+  k = 0;
+  for (var it = iter_init(mp); it isnt Terminal; it = iter_next(mp, it)) {
+    if (k >= mn) { fail("Map yields more than len items", (int64_t)k, (int64_t)mn); }
+    if (c_int(it) isnt 2 * m[k]) { fail("Map item", (int64_t)k, 2 * m[k]); }
+    k++;
+  }
+  if (k isnt mn) { fail("Map count", (int64_t)k, (int64_t)mn); }
+  k = mn;
+  for (var it = iter_last(mp); it isnt Terminal; it = iter_prev(mp, it)) {
+    if (k is 0) { fail("Map backward yields more than len items", 0, (int64_t)mn); }
+    k--;
+    if (c_int(it) isnt 2 * m[k]) { fail("Map backward item", (int64_t)k, 2 * m[k]); }
+  }
+  if (k isnt 0) { fail("Map backward count", (int64_t)k, (int64_t)mn); }
+  for (size_t i = 0; i < mn; i++) { if (c_int(get(mp, $I((int64_t)i))) isnt 2 * m[i]) { fail("Map get", (int64_t)i, 2 * m[i]); } }
+  del_raw(mp);
+}
+
 static int cmp_i64(const void* a, const void* b) { int64_t x = *(const int64_t*)a, y = *(const int64_t*)b; return x < y ? -1 : x > y; }
 
 int LLVMFuzzerInitialize(int* argc, char*** argv) {
   static var bottom = NULL;
   new_raw(GC, $R(&bottom));
   stop(current(GC));
+  dblres = new_raw(Int);
   return 0;
 }
 
 int LLVMFuzzerTestOneInput(const uint8_t* data, size_t size) {
   D = data; N = size; P = 0; mn = 0;
+  nints = 0; tup_on = true;
   var a = new_raw(Array, Int);
   var l = new_raw(List, Int);
+  var t = new_raw(Tuple);
   int nops = 1 + u8() % 40;
   for (int oi = 0; oi < nops; oi++) {
-    unsigned op = u8() % 16;
+    unsigned op = u8() % 18;
     var volatile exc = NULL;
     try {
-      if (op <= 2) { if (mn < CAP - 50) { int64_t v = val(); push(a, $I(v)); push(l, $I(v)); m[mn++] = v; } }
-      else if (op is 3) { if (mn) { pop(a); pop(l); mn--; } }
+      if (op <= 2) { if (mn < CAP - 50) { int64_t v = val(); push(a, $I(v)); push(l, $I(v)); TUP(var x = mkint(v); if (x) { push(t, x); }); m[mn++] = v; } }
+      else if (op is 3) { if (mn) { pop(a); pop(l); TUP(pop(t)); mn--; } }
       else if (op is 4) {
         if (mn and mn < CAP - 50) {
           size_t i = u8() % mn; int64_t v = val();
           push_at(a, $I(v), $I((int64_t)i)); push_at(l, $I(v), $I((int64_t)i));
+          TUP(var x = mkint(v); if (x) { push_at(t, x, $I((int64_t)i)); });
           memmove(m + i + 1, m + i, (mn - i) * sizeof m[0]); m[i] = v; mn++;
         }
       }
       else if (op is 5) {
         if (mn) {
           size_t i = u8() % mn; bool neg = u8() & 1; int64_t ix = neg ? (int64_t)i - (int64_t)mn : (int64_t)i;
-          pop_at(a, $I(ix)); pop_at(l, $I(ix));
+          pop_at(a, $I(ix)); pop_at(l, $I(ix)); TUP(pop_at(t, $I(ix)));
           memmove(m + i, m + i + 1, (mn - i - 1) * sizeof m[0]); mn--;
         }
       }
       else if (op is 6) {
         if (mn) {
           size_t i = u8() % mn; bool neg = u8() & 1; int64_t ix = neg ? (int64_t)i - (int64_t)mn : (int64_t)i; int64_t v = val();
-          set(a, $I(ix), $I(v)); set(l, $I(ix), $I(v)); m[i] = v;
+          set(a, $I(ix), $I(v)); set(l, $I(ix), $I(v)); TUP(var x = mkint(v); if (x) { set(t, $I(ix), x); }); m[i] = v;
         }
       }
       else if (op is 7) {
         int64_t v = (int64_t)(u8() % 7) - 3; size_t i = 0;
         while (i < mn and m[i] isnt v) { i++; }
-        if (i < mn) { rem(a, $I(v)); rem(l, $I(v)); memmove(m + i, m + i + 1, (mn - i - 1) * sizeof m[0]); mn--; }
+        if (i < mn) { rem(a, $I(v)); rem(l, $I(v)); TUP(rem(t, $I(v))); memmove(m + i, m + i + 1, (mn - i - 1) * sizeof m[0]); mn--; }
       }
       else if (op is 8) {
         size_t k = u8() % 6;
         if (mn + k < CAP - 50) {
           var o = (u8() & 1) ? new_raw(Array, Int) : new_raw(List, Int);
-          for (size_t j = 0; j < k; j++) { int64_t v = val(); push(o, $I(v)); m[mn + j] = v; }
-          concat(a, o); concat(l, o); mn += k;
-          del_raw(o);
+          var ot = new_raw(Tuple);
+          for (size_t j = 0; j < k; j++) { int64_t v = val(); push(o, $I(v)); TUP(var x = mkint(v); if (x) { push(ot, x); }); m[mn + j] = v; }
+          concat(a, o); concat(l, o); TUP(concat(t, ot)); mn += k;
+          del_raw(o); del_raw(ot);
         }
       }
       else if (op is 9) {
         unsigned how = u8() % 4;
-        if (how is 0) { resize(a, 0); resize(l, 0); mn = 0; }
-        else if (how is 1 and mn >= 2) { size_t k = 1 + u8() % (mn - 1); resize(a, k); resize(l, k); mn = k; }
+        if (how is 0) { resize(a, 0); resize(l, 0); if (mn) { TUP(resize(t, 0)); } mn = 0; }
+        else if (how is 1 and mn >= 2) { size_t k = 1 + u8() % (mn - 1); resize(a, k); resize(l, k); TUP(resize(t, k)); mn = k; }
         else if (how is 2) { resize(a, mn + u8() % 40); }                       /* Array: reserve only */
         else if (mn < CAP - 100) { size_t k = mn + 1 + u8() % 40; resize(l, k); /* List: pads with zero elements */
-          for (size_t j = mn; j < k; j++) { push(a, $I(0)); m[j] = 0; } mn = k; }
+          for (size_t j = mn; j < k; j++) { push(a, $I(0)); TUP(var x = mkint(0); if (x) { push(t, x); }); m[j] = 0; } mn = k; }
       }
-      else if (op is 10) {
-        bool desc = u8() & 1;
-        sort_by(a, desc ? gt : lt);
+      else if (op is 10 or op is 16) {
+        bool desc = op is 10 and (u8() & 1);
+        if (op is 16) { sort(a); TUP(sort(t)); }                               /* the plain entry point: ascending */
+        else { sort_by(a, desc ? gt : lt); TUP(sort_by(t, desc ? gt : lt)); }
         qsort(m, mn, sizeof m[0], cmp_i64);
         if (desc) { for (size_t i = 0; i < mn / 2; i++) { int64_t t = m[i]; m[i] = m[mn - 1 - i]; m[mn - 1 - i] = t; } }
         resize(l, 0); foreach (x in a) { push(l, x); }
@@ -152,21 +231,51 @@ int LLVMFuzzerTestOneInput(const uint8_t* data, size_t size) {
         var a2 = copy(a); var l2 = copy(l);
         push(a, $I(77)); push(l, $I(77)); if (mn) { set(a, $I(0), $I(78)); set(l, $I(0), $I(78)); }
         del(a); del(l); a = a2; l = l2;
+        if (tup_on) { var t2 = copy(t); var x = mkint(77); if (x) { push(t, x); } del(t); t = t2; }
       }
       else if (op is 12) {
         var a2 = new_raw(Array, Int, $I(5), $I(6)); var l2 = new_raw(List, Int, $I(5));
         assign(a2, l); assign(l2, a);                /* cross-kind assignment */
         del_raw(a); del_raw(l); a = a2; l = l2;
+        if (tup_on) { var t2 = new_raw(Tuple, $I(5)); assign(t2, t); del_raw(t); t = t2; }
       }
-      else if (op is 13) { size_t k = u8() % 30; if (mn + k < CAP - 50) { for (size_t j = 0; j < k; j++) { int64_t v = (int64_t)j; push(a, $I(v)); push(l, $I(v)); m[mn++] = v; } } }
-      else if (op is 14) { size_t k = u8() % 30; if (k > mn) { k = mn; } for (size_t j = 0; j < k; j++) { pop(a); pop(l); mn--; } }
-      else { if (mn and mn < CAP - 50) { int64_t v = val(); push_at(a, $I(v), $I(0)); push_at(l, $I(v), $I(0)); memmove(m + 1, m, mn * sizeof m[0]); m[0] = v; mn++; } }
+      else if (op is 13) { size_t k = u8() % 30; if (mn + k < CAP - 50) { for (size_t j = 0; j < k; j++) { int64_t v = (int64_t)j; push(a, $I(v)); push(l, $I(v)); TUP(var x = mkint(v); if (x) { push(t, x); }); m[mn++] = v; } } }
+      else if (op is 14) { size_t k = u8() % 30; if (k > mn) { k = mn; } for (size_t j = 0; j < k; j++) { pop(a); pop(l); TUP(pop(t)); mn--; } }
+      else if (op is 15) { if (mn and mn < CAP - 50) { int64_t v = val(); push_at(a, $I(v), $I(0)); push_at(l, $I(v), $I(0)); TUP(var x = mkint(v); if (x) { push_at(t, x, $I(0)); }); memmove(m + 1, m, mn * sizeof m[0]); m[0] = v; mn++; } }
+      else {
+        /* push_at with i == len (also on an empty container): the containers disagree whether it is in range, so either
+        ** "IndexOutOfBoundsError and unchanged" (the element is then pushed) or "appended" is accepted - the checks
+        ** below see the appended state in both cases */
+        if (mn < CAP - 50) {
+          int64_t v = val();
+          var volatile r = NULL;
+          try { push_at(a, $I(v), $I((int64_t)mn)); } catch (e in IndexOutOfBoundsError) { r = e; }
+          if (r) { if (len(a) isnt mn) { fail("rejected push_at changed the Array", (int64_t)len(a), (int64_t)mn); } push(a, $I(v)); }
+          r = NULL;
+          try { push_at(l, $I(v), $I((int64_t)mn)); } catch (e in IndexOutOfBoundsError) { r = e; }
+          if (r) { if (len(l) isnt mn) { fail("rejected push_at changed the List", (int64_t)len(l), (int64_t)mn); } push(l, $I(v)); }
+          if (tup_on) {
+            var x = mkint(v);
+            if (x) {
+              r = NULL;
+              try { push_at(t, x, $I((int64_t)mn)); } catch (e in IndexOutOfBoundsError) { r = e; }
+              if (r) { if (len(t) isnt mn) { fail("rejected push_at changed the Tuple", (int64_t)len(t), (int64_t)mn); } push(t, x); }
+            }
+          }
+          m[mn++] = v;
+        }
+      }
     } catch (e) { exc = e; }
     if (exc) { fail("operation raised", (int64_t)op, (int64_t)mn); }
     check(a, "Array len");
     check(l, "List len");
-    check_slice((u8() & 1) ? a : l);
+    if (tup_on and mn <= 96) { check(t, "Tuple len"); }
+    else if (tup_on and len(t) isnt mn) { fail("Tuple len", (int64_t)len(t), (int64_t)mn); }
+    unsigned w = u8();
+    check_slice((w & 1) ? a : ((w & 2) and tup_on and mn <= 96) ? t : l);
+    if ((w & 12) is 0) { check_views(a, l); }
   }
-  del(a); del(l);
+  del(a); del(l); del(t);
+  for (size_t i = 0; i < nints; i++) { del_raw(ints[i]); }
   return 0;
 }
